@@ -53,8 +53,11 @@ def run_gen_job(pid, job, tier, seed):
     gcfg = dict(p["gencfg"])
     if "mod" in gcfg and gcfg["mod"] > 1:
         gcfg["rem"] = (seed + job.get("seed_offset", 0)) % gcfg["mod"]
-    if gcfg.get("kmod", 1) > 1:
-        gcfg["krem"] = (seed + job.get("seed_offset", 0)) % gcfg["kmod"]
+    for i, pre in enumerate(["k", "a", "b", "c"]):
+        if gcfg.get(pre + "mod", 1) > 1:
+            gcfg[pre + "rem"] = (seed * (i + 2) + job.get("seed_offset", 0)) % gcfg[pre + "mod"]
+        elif pre + "mod" in gcfg:
+            gcfg[pre + "rem"] = 0
     path = os.path.join(wd, "gencfg.json")
     json.dump(gcfg, open(path, "w"))
     out = run_tlc_model(job["gen_spec"], job["gen_spec"], wd, workers=p.get("workers", 8), timeout=p.get("timeout", 1800), xmx=p.get("xmx", "6g"), env_extra={"GENCFG": path})
